@@ -18,6 +18,12 @@
 (*         observations recorded from the code.                               *)
 (* Part 4: a state machine enumerating (c, c2, p, q, r) for the design run and *)
 (*         for the generator.                                                 *)
+(*                                                                            *)
+(* Kinds of cases: U (one string), B (pair: folder join(p), relative part q), *)
+(* T (triple: + new folder join(r)), X (translation, roots join(p), join(r)), *)
+(* S (folder laws on folders AS SPELLED: p and r are handed to the helpers     *)
+(* un-normalised - separators at the end, doubled, alternate), Y (translation  *)
+(* with the two roots as spelled).                                             *)
 (***************************************************************************)
 EXTENDS Naturals, Sequences, FiniteSets
 
@@ -153,6 +159,61 @@ SemInside(c, root, t) ==
 \* a relative part must not be drive-qualified where drive letters exist (join("\", "a:") is "a:", as on Windows)
 RelOK(c, q) == ~(c.win /\ Len(Comps(q)) > 0 /\ HasDrive(Comps(q)[1]))
 
+\* ============================== spellings of a folder ==============================
+\* The same absolute folder can be written in many ways: separators at the end, doubled separators, the alternate
+\* separator, and mixtures.  The folder laws hold for every string that names an absolute folder, however spelled;
+\* what a spelling means is the sequence of names it spells (Comps above): the normalised form the laws compute on.
+AbsSpelling(c, f) == Len(f) > 0 /\ (IsSepCh(f[1]) \/ (c.win /\ HasDrive(f)))
+
+\* f re-written: its leading separator as `lead`, every later separator as `inner` (strings), `trail` appended
+RECURSIVE RespellFrom(_, _, _, _, _)
+RespellFrom(f, x, i, lead, inner) ==
+  IF i > Len(f) THEN <<>>
+  ELSE (IF f[i] # x THEN <<f[i]>> ELSE IF i = 1 THEN lead ELSE inner) \o RespellFrom(f, x, i + 1, lead, inner)
+Respell(c, f, lead, inner, trail) == RespellFrom(f, c.sep, 1, lead, inner) \o trail
+
+\* Spell(c, f, k): spelling number k of the absolute folder f = Join(c, <<p>>)   (examples for sep = '/', f = /a/b)
+NSpell == 13
+Spell(c, f, k) ==
+  LET s == <<c.sep>>
+      a == <<Alt(c)>>
+  IN CASE k = 0  -> f                                         \* /a/b      as join writes it
+       [] k = 1  -> Respell(c, f, s, s, s)                     \* /a/b/     separator at the end
+       [] k = 2  -> Respell(c, f, s, s, a)                     \* /a/b\     alternate separator at the end
+       [] k = 3  -> Respell(c, f, s, s, s \o s)                \* /a/b//    two separators at the end
+       [] k = 4  -> Respell(c, f, s, s, a \o s)                \* /a/b\/    mixed pair at the end
+       [] k = 5  -> Respell(c, f, s, s, s \o a)                \* /a/b/\    mixed pair at the end
+       [] k = 6  -> Respell(c, f, a, a, <<>>)                  \* \a\b      alternate separators throughout
+       [] k = 7  -> Respell(c, f, a, a, a)                     \* \a\b\     ... and one at the end
+       [] k = 8  -> Respell(c, f, a, a, s)                     \* \a\b/     ... and a primary one at the end
+       [] k = 9  -> Respell(c, f, s, s \o s, <<>>)             \* /a//b     doubled inside
+       [] k = 10 -> Respell(c, f, s, s \o a, <<>>)             \* /a/\b     mixed pair inside
+       [] k = 11 -> Respell(c, f, s, s \o s, s)                \* /a//b/    doubled inside and one at the end
+       [] k = 12 -> Respell(c, f, s \o s, s, <<>>)             \* //a/b     doubled in front
+       [] k = 13 -> Respell(c, f, a \o a, a \o a, a \o a)      \* \\a\\b\\  everything doubled, alternate
+
+\* the stratum of a spelling, computed from the string alone: which separators it uses and where they pile up
+LastName(f)  == CHOOSE i \in 0..Len(f) : (i = 0 \/ ~IsSepCh(f[i])) /\ \A j \in (i + 1)..Len(f) : IsSepCh(f[j])
+RootRespelled(f) == Len(f) > 1 /\ Comps(f) = <<>>           \* the root written with more than one separator
+SpellShape(c, f) ==
+  IF Len(f) = 0 THEN "EMPTY"
+  ELSE IF Comps(f) = <<>> THEN (IF Len(f) > 1 THEN "ROOT_RESPELLED" ELSE "PLAIN")
+  ELSE LET n    == Len(f)
+           ln   == LastName(f)
+           alt  == \E i \in 1..n : f[i] = Alt(c)
+           dbl  == \E i \in 1..(ln - 1) : IsSepCh(f[i]) /\ IsSepCh(f[i + 1])
+       IN IF ~alt /\ ~dbl /\ ln = n THEN "PLAIN"
+          ELSE (IF alt THEN "ALT" ELSE "SEP") \o (IF dbl THEN "_DOUBLED" ELSE "")
+               \o (IF n - ln >= 2 THEN "_TRAIL2" ELSE IF n - ln = 1 THEN "_TRAIL" ELSE "")
+
+\* Input class on which the UNCHANGED helpers do not satisfy the folder laws (normalize_path_separators turns a root
+\* written with two or more separators into the empty string): the root re-spelled, with a relative part without
+\* names.  Reported to the maintainers; the cases are generated, executed and judged like all others, the driver
+\* lists their law failures under this stratum tag instead of reporting them (see c13.py, HELD).
+HeldTag == "ROOT_RESPELLED_EMPTYREL"
+HeldJoin(f, q)       == RootRespelled(f) /\ Comps(q) = <<>>
+HeldReplace(f, q, g) == (RootRespelled(f) \/ RootRespelled(g)) /\ Comps(q) = <<>>
+
 \* ============================== Part 2: observations ==============================
 \* (sub-results are shared through LET; PathsMatch(a, b, d) is written Norm(a, d) = Norm(b, d) on shared normal forms)
 OnStr(r, e)     == IF K(r) = 1 THEN e ELSE Skip      \* a helper applied to something that is not a string is not evaluated
@@ -217,11 +278,9 @@ ObsT(c, p, q, r) ==
        mout |-> OnStr(out, Bool(Norm(c, V(out), FALSE) = Norm(c, Join(c, <<g, q>>), FALSE))),
        rawrep |-> ReplacePath(c, q, p, r) ]       \* replace_path(q, p, r) on arbitrary strings (conformance only)
 
-\* translation: side 0 has convention ca and root join(r0), side 1 has cb and join(r1)
-ObsX(ca, cb, r0, r1, q) ==
+\* translation: side 0 has convention ca and root A, side 1 has cb and root B
+ObsRoots(ca, cb, A, B, q) ==
   LET cc == <<ca, cb>>
-      A  == Join(ca, <<r0>>)
-      B  == Join(cb, <<r1>>)
       rt == <<A, B>>
       ta == Join(ca, <<A, q>>)                            \* a path of side 0 inside its root
       xa == Translate(cc, rt, 1, ta)                      \* ... translated to side 1
@@ -236,6 +295,28 @@ ObsX(ca, cb, r0, r1, q) ==
        tb |-> Str(tb), xb |-> xb, bb |-> bb, mbb |-> OnStr(bb, Bool(PathsMatch(cb, V(bb), tb, FALSE))),
        oa |-> Str(oa), xoa |-> Translate(cc, rt, 1, oa), xqa |-> Translate(cc, rt, 1, q),
        ob |-> Str(ob), xob |-> Translate(cc, rt, 0, ob), xqb |-> Translate(cc, rt, 0, q) ]
+\* X: the roots are join(r0), join(r1);  Y: the roots are r0, r1 as spelled
+ObsX(ca, cb, r0, r1, q) == ObsRoots(ca, cb, Join(ca, <<r0>>), Join(cb, <<r1>>), q)
+ObsY(ca, cb, r0, r1, q) == ObsRoots(ca, cb, r0, r1, q)
+
+\* folder laws on folders as spelled: fs (the folder) and gs (the new folder of replace_path) go to the helpers as they are
+ObsS(c, fs, q, gs) ==
+  LET jf   == Join(c, <<fs>>)
+      t    == Join(c, <<fs, q>>)
+      sub  == IsSubpath(c, fs, t, FALSE)
+      sib  == jf \o q                                               \* the folder's last name prolonged by q
+      out  == ReplacePath(c, t, fs, gs)
+      rel2 == OnStr(out, IsSubpath(c, gs, V(out), FALSE))
+  IN [ jf |-> Str(jf), t |-> Str(t),
+       sub |-> sub, subs |-> IsSubpath(c, fs, t, TRUE),
+       sroot |-> sub,                                                \* is_subpath_of_root(t), root path set to fs
+       jr |-> OnStr(sub, Str(Join(c, <<fs, V(sub)>>))),
+       mrel |-> OnStr(sub, Bool(Norm(c, V(sub), FALSE) = Norm(c, q, FALSE))),
+       self |-> IsSubpath(c, fs, fs, FALSE), selfs |-> IsSubpath(c, fs, fs, TRUE),
+       sib |-> Str(sib), ssub |-> IsSubpath(c, fs, sib, FALSE), ssubs |-> IsSubpath(c, fs, sib, TRUE),
+       out |-> out, rel2 |-> rel2,
+       mrel2 |-> IF K(rel2) = 1 /\ K(sub) = 1 THEN Bool(Norm(c, V(rel2), FALSE) = Norm(c, V(sub), FALSE)) ELSE Skip,
+       mout |-> OnStr(out, Bool(Norm(c, V(out), FALSE) = Norm(c, Join(c, <<gs, q>>), FALSE))) ]
 
 \* ============================== Part 3: the laws ==============================
 IsStr(r)  == K(r) = 1
@@ -312,10 +393,39 @@ TranslateOutsideIsNone(side, ca, cb, r0, r1, q, o) ==
        /\ ~SemInside(cb, V(o.B), V(o.ob)) => IsNo(o.xob)
        /\ ~SemInside(cb, V(o.B), q) => IsNo(o.xqb)
 
+\* ---- the folder laws on folders as spelled (kind S).  The expected values are computed here, on normalised forms: the
+\* names a string spells (Comps); the code's results are judged against them ----
+JoinIsSubpathS(c, fs, q, o) ==
+  (AbsSpelling(c, fs) /\ RelOK(c, q)) =>
+    /\ IsStr(o.jf) /\ IsStr(o.t) /\ IsStr(o.sub)
+    /\ Comps(V(o.t)) = Comps(fs) \o Comps(q)         \* joining: the folder's names, then the relative part's names
+    /\ Comps(V(o.sub)) = Comps(q)                    \* reported inside, with exactly the names that were joined
+    /\ o.jr = o.t                                    \* folder + reported relative part = the joined path
+    /\ IsYes(o.mrel)
+    /\ o.sroot = o.sub
+    /\ IsStr(o.self) /\ IsNo(o.selfs)                \* a folder is inside itself, but not strictly
+    /\ o.subs = (IF Comps(q) = <<>> THEN No ELSE o.sub)
+PrefixSiblingNotSubpathS(c, fs, q, o) ==
+  (AbsSpelling(c, fs) /\ IsStr(o.jf) /\ Comps(fs) # <<>> /\ Len(q) > 0 /\ ~IsSepCh(q[1]))
+     => (IsNo(o.ssub) /\ IsNo(o.ssubs))
+ReplaceMovesRelativeS(c, fs, q, gs, o) ==
+  (AbsSpelling(c, fs) /\ AbsSpelling(c, gs) /\ RelOK(c, q)) =>
+    /\ IsStr(o.sub) /\ IsStr(o.out) /\ IsStr(o.rel2)
+    /\ IsYes(o.mrel2)                                         \* inside the new folder, same relative part
+    /\ IsYes(o.mout)                                          \* equivalent to joining the new folder with it
+    /\ Comps(V(o.out)) = Comps(gs) \o Comps(q)                 \* names moved exactly, case untouched
+
+\* ---- translation with the roots as spelled (kind Y): the laws of kind X, for every pair of absolute spellings ----
+HoldsXLaw(law, side, ca, cb, r0, r1, q, o) ==
+  CASE law = "TranslateRoundTrip" -> TranslateRoundTrip(side, ca, cb, r0, r1, q, o)
+    [] law = "TranslateOutsideIsNone" -> TranslateOutsideIsNone(side, ca, cb, r0, r1, q, o)
+
 LawsU == {"NormIdem", "SplitJoin", "MatchReflexive", "MatchOwnNormalForm", "CaseRule"}
 LawsB == {"MatchSymmetric", "MatchAgreesNorm", "JoinIsSubpath", "PrefixSiblingNotSubpath"}
 LawsT == {"MatchTransitive", "ReplaceMovesRelative"}
 LawsX == {"TranslateRoundTrip", "TranslateOutsideIsNone"}
+LawsS == {"JoinIsSubpath", "PrefixSiblingNotSubpath", "ReplaceMovesRelative"}     \* the same laws, folders as spelled
+LawsY == LawsX
 
 HoldsU(law, c, p, o) ==
   CASE law = "NormIdem" -> NormIdem(c, p, o) [] law = "SplitJoin" -> SplitJoin(c, p, o)
@@ -326,9 +436,14 @@ HoldsB(law, c, p, q, o) ==
     [] law = "JoinIsSubpath" -> JoinIsSubpath(c, p, q, o) [] law = "PrefixSiblingNotSubpath" -> PrefixSiblingNotSubpath(c, p, q, o)
 HoldsT(law, c, p, q, r, o) ==
   CASE law = "MatchTransitive" -> MatchTransitive(c, p, q, r, o) [] law = "ReplaceMovesRelative" -> ReplaceMovesRelative(c, p, q, r, o)
-HoldsX(law, side, ca, cb, r0, r1, q, o) ==
-  CASE law = "TranslateRoundTrip" -> TranslateRoundTrip(side, ca, cb, r0, r1, q, o)
-    [] law = "TranslateOutsideIsNone" -> TranslateOutsideIsNone(side, ca, cb, r0, r1, q, o)
+HoldsX(law, side, ca, cb, r0, r1, q, o) == HoldsXLaw(law, side, ca, cb, r0, r1, q, o)
+HoldsS(law, c, fs, q, gs, o) ==
+  CASE law = "JoinIsSubpath" -> JoinIsSubpathS(c, fs, q, o) [] law = "PrefixSiblingNotSubpath" -> PrefixSiblingNotSubpathS(c, fs, q, o)
+    [] law = "ReplaceMovesRelative" -> ReplaceMovesRelativeS(c, fs, q, gs, o)
+HoldsY(law, side, ca, cb, r0, r1, q, o) ==
+  (AbsSpelling(ca, r0) /\ AbsSpelling(cb, r1)) => HoldsXLaw(law, side, ca, cb, r0, r1, q, o)
+\* the stratum of an S case for a law: the held input class, else how the folder is spelled
+HeldS(law, fs, q, gs) == IF law = "ReplaceMovesRelative" THEN HeldReplace(fs, q, gs) ELSE HeldJoin(fs, q)
 
 \* the observation fields a law reads (with the results they were computed from): an exception is attributed to a law
 \* only when it occurred in one of these
@@ -346,6 +461,11 @@ Reads(law, side) ==
     [] law = "ReplaceMovesRelative" -> {"f", "g", "t", "rel", "out", "rel2", "mrel", "mout"}
     [] law = "TranslateRoundTrip" -> IF side = 0 THEN {"A", "B", "ta", "xa", "ba", "mba"} ELSE {"A", "B", "tb", "xb", "bb", "mbb"}
     [] law = "TranslateOutsideIsNone" -> IF side = 0 THEN {"A", "B", "oa", "xoa", "xqa"} ELSE {"A", "B", "ob", "xob", "xqb"}
+
+ReadsS(law) ==
+  CASE law = "JoinIsSubpath" -> {"jf", "t", "sub", "jr", "mrel", "sroot", "self", "selfs", "subs"}
+    [] law = "PrefixSiblingNotSubpath" -> {"jf", "sib", "ssub", "ssubs"}
+    [] law = "ReplaceMovesRelative" -> {"t", "sub", "out", "rel2", "mrel2", "mout"}
 
 \* ============================== Part 4: enumeration ==============================
 CONSTANTS Seps, Cases, Wins,     \* which conventions (subsets of {1,2}, BOOLEAN, BOOLEAN)
@@ -376,4 +496,22 @@ DesignU == LET o == ObsU(vc, vp) IN \A law \in LawsU : HoldsU(law, vc, vp, o)
 DesignB == LET o == ObsB(vc, vp, vq) IN \A law \in LawsB : HoldsB(law, vc, vp, vq, o)
 DesignT == LET o == ObsT(vc, vp, vq, vr) IN \A law \in LawsT : HoldsT(law, vc, vp, vq, vr, o)
 DesignX == OneSided \/ LET o == ObsX(vc, vc2, vp, vr, vq) IN \A law \in LawsX, side \in {0, 1} : HoldsX(law, side, vc, vc2, vp, vr, vq, o)
+\* folders as spelled: every string vp / vr that is an absolute spelling (raw), and the listed re-spellings of join(vp) /
+\* join(vr), which reach longer strings.  The held input class is left to DesignSHeld (not part of the design runs:
+\* TLC shows the counterexample on request).
+DesignSRaw == LET o == ObsS(vc, vp, vq, vr) IN \A law \in LawsS : HeldS(law, vp, vq, vr) \/ HoldsS(law, vc, vp, vq, vr, o)
+DesignSSpell ==
+  \A k \in 0..NSpell :
+    LET fs == Spell(vc, Join(vc, <<vp>>), k)
+        gs == Spell(vc, Join(vc, <<vr>>), k)
+        o  == ObsS(vc, fs, vq, gs)
+    IN \A law \in LawsS : HeldS(law, fs, vq, gs) \/ HoldsS(law, vc, fs, vq, gs, o)
+DesignSHeld == LET o == ObsS(vc, vp, vq, vr) IN \A law \in LawsS : HoldsS(law, vc, vp, vq, vr, o)
+DesignYRaw == OneSided \/ LET o == ObsY(vc, vc2, vp, vr, vq) IN \A law \in LawsY, side \in {0, 1} : HoldsY(law, side, vc, vc2, vp, vr, vq, o)
+DesignYSpell ==
+  OneSided \/ \A k \in 0..NSpell :
+    LET A == Spell(vc, Join(vc, <<vp>>), k)
+        B == Spell(vc2, Join(vc2, <<vr>>), k)
+        o == ObsY(vc, vc2, A, B, vq)
+    IN \A law \in LawsY, side \in {0, 1} : HoldsY(law, side, vc, vc2, A, B, vq, o)
 =============================================================================
